@@ -25,6 +25,10 @@ def run(ctx):
     r04c(ctx)
     r04d(ctx)
     r04e(ctx)
+    # R04f: a Fiat-Shamir challenge must depend on everything handed to its hash -- values cut off by a
+    # too small count make challenges predictable or equal across rounds (shared with C05's R05a)
+    from . import c05
+    c05.r05a(ctx, rule='R04f')
 
 
 def r04d(ctx):
